@@ -540,6 +540,13 @@ fn loaded_programs(out: &mut Out) {
         ("stack 32", "#! mrasm\n*STACKSIZE 32\n LDSP 0xC1\n NOP\n", Stacksize::_32, 4),
         ("stack 0", "#! mrasm\n*STACKSIZE 0\n LDSP 0xD5\nL:\n JR L\n", Stacksize::_0, 5),
         ("stack 64 push", "#! mrasm\n*STACKSIZE 64\n LDSP 0xB0\nL:\n PUSH R0\n JR L\n", Stacksize::_64, 6),
+        ("empty program", "#! mrasm\n", Stacksize::_16, 0),
+        ("trailing .BYTE", "#! mrasm\n NOP\n .BYTE 5\n", Stacksize::_16, 6),
+        ("trailing .ORG", "#! mrasm\n NOP\n NOP\n .ORG 20\n", Stacksize::_16, 20),
+        ("trailing zero .DB", "#! mrasm\n NOP\n .DB 0, 0\n", Stacksize::_16, 3),
+        ("explicit size beyond image", "#! mrasm\n*PROGRAMSIZE 40\n NOP\n NOP\n", Stacksize::_16, 40),
+        ("explicit size 0", "#! mrasm\n*PROGRAMSIZE 0\n*STACKSIZE 48\n NOP\n NOP\n", Stacksize::_48, 0),
+        ("image of 240 bytes", "#! mrasm\n .ORG 239\n NOP\n", Stacksize::_16, 240),
     ];
     for (name, src, stack, size) in srcs {
         out.runs += 1;
